@@ -177,7 +177,7 @@ def _outcome(picks: Sequence[Any], full: bool = True) -> tuple:
             return ("foreign", type(e).__name__)
         return ("lib", type(e).__name__)
     if isinstance(r, ast._Node):
-        return ("node", repr(gen.decode(r)) if full else "")
+        return ("node", gen.decode(r) if full else "")      # the structure, not its repr (CrossHair prints 1-tuples wrongly)
     return ("non-node", type(r).__name__)
 
 
